@@ -949,8 +949,8 @@ def main(tier, seed):
     build_harness(FAMILY)
     if os.environ.get("VERIF_SERVER_BIN"):
         pass          # sanity test against a separately built server: never build into the shared cache from another source tree
-    elif os.path.realpath(REPO) != "/repo":
-        raise InternalError("FERROUS_REPO is overridden: set VERIF_SERVER_BIN to a server built elsewhere (the shared cache is for /repo only)")
+    elif os.path.realpath(REPO) != "/repo" and not os.environ.get("VERIF_CACHE"):
+        raise InternalError("FERROUS_REPO is overridden: set VERIF_CACHE too (isolated run) or VERIF_SERVER_BIN to a server built elsewhere (the shared cache is for /repo only)")
     else:
         build_server()
     c = C09(rep, facts)
